@@ -1,4 +1,6 @@
 import QProofs.C07
+import QGen.C07
+import QProofs.C07Embed
 /-!
 # C07 — property theorems: tensor products and embeddings respect subsystem structure
 
@@ -283,55 +285,37 @@ theorem calcPerm_sorts (order : List Nat) (vs : List (List K)) (hlen : order.len
 
 end listlevel
 
-def insertNat (x : Nat) : List Nat → List Nat
-  | [] => [x]
-  | y :: ys => if x ≤ y then x :: y :: ys else y :: insertNat x ys
 
-/-- all 24 orders of four subsystem names -/
-def orders4 : List (List Nat) := [[0,1,2,3], [0,1,3,2], [0,2,1,3], [0,2,3,1], [0,3,1,2], [0,3,2,1], [1,0,2,3], [1,0,3,2], [1,2,0,3], [1,2,3,0], [1,3,0,2], [1,3,2,0], [2,0,1,3], [2,0,3,1], [2,1,0,3], [2,1,3,0], [2,3,0,1], [2,3,1,0], [3,0,1,2], [3,0,2,1], [3,1,0,2], [3,1,2,0], [3,2,0,1], [3,2,1,0]]
+/-! ### tie to the source: the model equals the definitions regenerated from matrix_util.py on every run -/
 
-/-- how the result must act on a list laid out in the given order: element `x` (a multi-index in argument
-order) re-read in ascending name order -/
-def reread (order : List Nat) (x : List Nat) : List Nat :=
-  (order.foldr insertNat []).map fun n => x.getD (order.idxOf n) 0
+/-- `_left_permutation_matrix` of the model is built from exactly the head / tail identity sizes, `_K` arguments and
+`kron` nesting that `harness/c07_translate.py` reads off the current source (QGen/C07.lean): an edit of any of those
+expressions (e.g. `reduce(add, …)`, the defect D7) makes this proof fail. -/
+theorem leftPerm_matches_source {K : Type} [Add K] [Mul K] [Zero K] [One K] (position : Nat) (sizes : List Nat) :
+    leftPerm (K := K) position sizes =
+      match QGen.C07.kArgs position sizes with
+      | (some sp, some sq) =>
+          .ok (((DMat.eye (QGen.C07.headSize position sizes)).kron ⟨sp * sq, sq * sp, Kmat sp sq⟩).kron
+                (DMat.eye (QGen.C07.tailSize position sizes)))
+      | _ => .error .index := by
+  unfold leftPerm QGen.C07.kArgs QGen.C07.headSize QGen.C07.tailSize QGen.C07.redMul prodL
+  cases sizes[position]? <;> cases sizes[position - 1]? <;> rfl
 
-/-- does `cp` return a matrix that re-lays-out the row-major enumeration of `sizes` (argument order) as the
-row-major enumeration in ascending name order? -/
-def sortsOK (cp : List Nat → List Nat → Except Err (DMat Int)) (order sizes : List Nat) : Bool :=
-  match cp order sizes with
-  | .ok P =>
-    match convertList P (QM.C16.allMulti sizes) with
-    | .ok l => l.map (fun o => o.map (reread order)) == (QM.C16.allMulti (reread order sizes)).map some
-    | .error _ => false
-  | .error _ => false
+/-- the two tuple swaps and the accumulation order of the `calc_permutation_matrix` loop, as read off the source:
+`swapAt` of the model performs exactly the generated swaps (a no-op swap of `tmp_size_list`, seeded change C07-2,
+breaks this), and the model multiplies the new factor on the left as the source does. -/
+theorem calcPerm_loop_matches_source (pre : List Nat) (a b : Nat) (post : List Nat) :
+    swapAt (pre ++ a :: b :: post) (pre.length + 1)
+        = pre ++ (QGen.C07.swapOrder (a, b)).1 :: (QGen.C07.swapOrder (a, b)).2 :: post ∧
+      swapAt (pre ++ a :: b :: post) (pre.length + 1)
+        = pre ++ (QGen.C07.swapSizes (a, b)).1 :: (QGen.C07.swapSizes (a, b)).2 :: post ∧
+      QGen.C07.accumOnLeft = true := by
+  refine ⟨?_, ?_, rfl⟩ <;> simp [QGen.C07.swapOrder, QGen.C07.swapSizes, swapAt_decomp]
 
-/-- sizes attached to the names 0,1,2 in the three-subsystem table: 2, 3, 2 -/
-def sizeOfName (n : Nat) : Nat := [2, 3, 2, 2].getD n 1
-
-/-- sizes attached to the names 0,1,2,3 in the four-subsystem tables: 2, 1, 2, 3 -/
-def sizeOfName4 (n : Nat) : Nat := [2, 1, 2, 3].getD n 1
-
-/-- C07 `perm_sorts`, finite table (`decide +kernel`; four subsystems of sizes 2,1,2,3, three orders including
-the full reversal — not the unbounded claim): the matrix returned by `calc_permutation_matrix` turns the tensor
-layout of the given order into the layout in ascending name order. -/
-theorem calcPerm_sorts_table_four :
-    [[3, 2, 1, 0], [1, 3, 0, 2], [2, 0, 3, 1]].all
-      (fun o => sortsOK calcPerm o (o.map sizeOfName4)) = true := by
-  decide +kernel
-
-/-- the same check for three subsystems (all 6 orders of names 0,1,2, sizes 2,3,2). Finite table. -/
-theorem calcPerm_sorts_table_three :
-    [[0,1,2],[0,2,1],[1,0,2],[1,2,0],[2,0,1],[2,1,0]].all
-        (fun o => sortsOK calcPerm o (o.map sizeOfName)) = true := by
-  decide +kernel
+example : leftPerm (K := Int) 1 [2, 3] = .ok (((DMat.eye 1).kron ⟨3 * 2, 2 * 3, Kmat 3 2⟩).kron (DMat.eye 1)) := by
+  rw [leftPerm_matches_source]; rfl
 
 /-! ### the measurement-process layout (open defect D7b) -/
-
-/-- finite table (`decide +kernel`): for four 1-qubit states (sizes `[4,4,4,4]`) none of the 24 orders of names
-raises (the instance of `calcPerm_total` on which the old sum-sized identity blocks failed for 22 orders). -/
-theorem calcPerm_four_qubits_table :
-    (orders4.filter fun o => isShapeErr (calcPerm (K := Int) o [4, 4, 4, 4])).length = 0 := by
-  decide +kernel
 
 /-- HS matrices of a 1-dimensional system (1×1) — enough to exhibit an outcome layout -/
 def hs1 (x : Rat) : DMat Rat := ⟨1, 1, #v[#v[x]]⟩
@@ -457,6 +441,82 @@ theorem embed_two_block {K : Type} [Zero K] (mat : Nat → Nat → K) (coeff : K
             | _, _ => if i = j then coeff else 0) := by
   have h := embedIndex_two
   interval_cases i <;> interval_cases j <;> simp [embedEntry, h, qutritIndex]
+
+
+/-! ### embedding physicality: the embedding is conjugation with an isometry -/
+section embphys
+open scoped ComplexOrder
+variable {t N : Nat} (ι : Fin t → Fin N) (hι : Function.Injective ι)
+include hι
+
+/-- C07 "embedding a qutrit operation into two qubits preserves physicality", states: the embedded density matrix
+`V ρ Vᴴ` (complement coefficient 0) is PSD with the same trace — any isometric relabelling `ι`, any dimensions. -/
+theorem embed_state_physical (rho : Matrix (Fin t) (Fin t) ℂ) (h : rho.PosSemidef) :
+    (embIso ι rho 0).PosSemidef ∧ (embIso ι rho 0).trace = rho.trace := by
+  refine ⟨embIso_posSemidef ι hι rho h 0 le_rfl, ?_⟩
+  rw [embIso_trace ι hι]; simp
+
+/-- C07 embedding, POVMs: with the complement coefficient `1/m` used by `Povm._embed_…` every embedded element is
+PSD and the embedded elements still sum to the identity. -/
+theorem embed_povm_physical (l : List (Matrix (Fin t) (Fin t) ℂ)) (hpsd : ∀ E ∈ l, E.PosSemidef)
+    (hsum : l.sum = 1) (hne : l ≠ []) :
+    (∀ E ∈ l, (embIso ι E (1 / (l.length : ℂ))).PosSemidef) ∧
+      (l.map fun E => embIso ι E (1 / (l.length : ℂ))).sum = 1 := by
+  have hm : (l.length : ℂ) ≠ 0 := by
+    have : l.length ≠ 0 := fun h => hne (List.length_eq_zero_iff.mp h)
+    exact_mod_cast this
+  refine ⟨fun E hE => embIso_posSemidef ι hι E (hpsd E hE) _ ?_, ?_⟩
+  · have h : (1 / (l.length : ℂ)) = (((1 / (l.length : ℝ)) : ℝ) : ℂ) := by push_cast; rfl
+    rw [h]
+    exact Complex.zero_le_real.mpr (by positivity)
+  · rw [embIso_list_sum, hsum, mul_one_div_cancel hm, embIso_one]
+
+/-- C07 embedding, gates / measurement processes: Kraus operators embedded with complement coefficient `c`,
+`r·|c|² = 1` (`c = 1/√r`, `r` the number of Kraus operators), stay jointly trace preserving. -/
+theorem embed_kraus_tp (ks : List (Matrix (Fin t) (Fin t) ℂ)) (htp : (ks.map fun K => Kᴴ * K).sum = 1) (c : ℂ)
+    (hc : (ks.length : ℂ) * (star c * c) = 1) :
+    (ks.map fun K => (embIso ι K c)ᴴ * embIso ι K c).sum = 1 := by
+  have h1 : (ks.map fun K => (embIso ι K c)ᴴ * embIso ι K c)
+      = (ks.map fun K => Kᴴ * K).map fun M => embIso ι M (star c * c) := by
+    rw [List.map_map]; apply List.map_congr_left; intro K _
+    simp only [Function.comp, embIso_conjTranspose, embIso_mul ι hι]
+  rw [h1, embIso_list_sum, htp, List.length_map, hc, embIso_one]
+
+/-- C07 embedding preserves "all outcome statistics of embedded inputs": Born weights and Kraus action. -/
+theorem embed_statistics (E K rho : Matrix (Fin t) (Fin t) ℂ) (c : ℂ) :
+    (embIso ι E c * embIso ι rho 0).trace = (E * rho).trace ∧
+      embIso ι K c * embIso ι rho 0 * (embIso ι K c)ᴴ = embIso ι (K * rho * Kᴴ) 0 := by
+  constructor
+  · rw [embIso_mul ι hι, embIso_trace ι hι]; simp
+  · rw [embIso_conjTranspose, embIso_mul ι hι, embIso_mul ι hι]; simp
+
+end embphys
+
+section embtie
+variable {R : Type} [CommRing R] [StarRing R]
+
+/-- one qutrit: `_calc_matrix_from_qutrits_to_qubits` computes `V M Vᴴ + coeff·(1 − V Vᴴ)` -/
+theorem embedEntry_one_eq (M : Matrix (Fin 3) (Fin 3) R) (c : R) (i j : Fin 4) :
+    embedEntry 1 (natFn M) c i.val j.val = some (embIso iota1 M c i j) := by
+  rw [embed_one_block _ _ _ _ i.isLt j.isLt, embIso_apply iota1 iota1_inj inv1 inv1_spec]
+  fin_cases i <;> fin_cases j <;> simp [inv1, natFn]
+
+/-- two qutrits (finite table over the 16×16 index pairs, all matrices): the same statement with
+`V|a b⟩ = |a⟩|b⟩` -/
+theorem embedEntry_two_eq (M : Matrix (Fin 9) (Fin 9) R) (c : R) (i j : Fin 16) :
+    embedEntry 2 (natFn M) c i.val j.val = some (embIso iota2 M c i j) := by
+  rw [embed_two_block _ _ _ _ i.isLt j.isLt, embIso_apply iota2 iota2_inj inv2 inv2_spec]
+  fin_cases i <;> fin_cases j <;> simp [inv2, natFn, qutritIndex]
+
+end embtie
+
+open scoped ComplexOrder in
+/-- non-vacuity of the embedding theorems: the one-qutrit relabelling is injective, the maximally mixed qutrit
+state is PSD, the trivial POVM `{1}` sums to the identity, the single Kraus operator `1` is trace preserving -/
+example : Function.Injective iota1 ∧ (1 : Matrix (Fin 3) (Fin 3) ℂ).PosSemidef ∧
+    ([(1 : Matrix (Fin 3) (Fin 3) ℂ)].sum = 1) ∧
+    (([(1 : Matrix (Fin 3) (Fin 3) ℂ)].map fun K => Kᴴ * K).sum = 1) := by
+  exact ⟨iota1_inj, Matrix.PosSemidef.one, by simp, by simp⟩
 
 /-! ### non-vacuity -/
 example : (Kmat (K := Int) 2 3).mulVec (kronVec #v[1, 2, 3] #v[10, 20]) = kronVec #v[10, 20] #v[1, 2, 3] := by
